@@ -64,6 +64,35 @@ def run_ranges(chk, exe, rng, broken):
             expect.append(('apply-' + name, acc, 'apply at %.3e..%.3e with a %.3e..%.3e calibration' % (lo, hi, cf[0], cf[-1])))
         lines += ['cal free 0']
         expect.append(None)
+    # 5. standards first, frequency vector afterwards: vnacal_new_set_frequency_vector has to check every parameter the
+    #    vnacal_new_t already refers to, wherever its handle sits among the other parameters
+    for rep in range(12 if chk.tier == 'quick' else 200):
+        fmin = rng.uniform(1e8, 2e9)
+        fmax = fmin * rng.uniform(1.5, 6)
+        nf = rng.randint(2, 4)
+        cf = [fmin + (fmax - fmin) * i / (nf - 1) for i in range(nf)]
+        L = ['cal create 0', 'cal new_alloc 0 0 0 1 1 %d' % nf]
+        nextra = rng.choice([0, 0, 1, 2, 3, 5, 9])
+        for _ in range(nextra):
+            L.append('cal make_scalar 0 %s' % vlib.c2h(calsim.rc(rng, 0.4)))
+        name, lo, hi, acc = rng.choice([('cover', cf[0], cf[-1], True), ('wider', cf[0] * 0.5, cf[-1] * 2, True), ('low-short', cf[0] * 1.06, cf[-1], False),
+                                        ('high-short', cf[0], cf[-1] * 0.94, False), ('both-short', cf[0] * 1.2, cf[-1] * 0.8, False)])
+        k = rng.randint(2, 4)
+        pf = [lo + (hi - lo) * i / (k - 1) for i in range(k)]
+        L.append('cal make_vector 0 %d %s %s' % (k, fv(pf), ' '.join(vlib.c2h(calsim.rc(rng, 0.3)) for _ in range(k))))
+        hv = 3 + nextra
+        M1 = 'm %d 1 1 %s' % (nf, ' '.join(vlib.c2h(calsim.rc(rng, 0.5)) for _ in range(nf)))
+        before = rng.sample([1, 2, 0] + list(range(3, 3 + nextra)), rng.randint(0, min(3 + nextra, 4)))
+        for hdl in before:
+            L.append('cal add 0 single_reflect %s %d 1' % (M1, hdl))
+        L.append('cal add 0 single_reflect %s %d 1' % (M1, hv))
+        lines += L
+        expect += [None] * 2 + [('late-setup', True, 'set-up step of the late-frequency scenario')] * (len(L) - 2)
+        lines.append('cal new_set_frequency_vector 0 %s' % fv(cf))
+        expect.append(('late-frequencies-' + name, acc, 'vector standard %.3e..%.3e (handle %d, %d other standards before it) when the %.3e..%.3e '
+                       'calibration frequencies are set afterwards' % (lo, hi, hv, len(before), cf[0], cf[-1])))
+        lines.append('cal free 0')
+        expect.append(None)
     out, rc, err = vlib.run_lines(exe, lines)
     if rc != 0 or len(out) != len(lines):
         chk.violation('sanitizer-range', 'library crashed in the range-check scenarios: ' + err[-1200:], lines[max(0, len(out) - 8):len(out) + 1])
@@ -76,7 +105,7 @@ def run_ranges(chk, exe, rng, broken):
         ok = o.startswith('ok')
         if ok != acc:
             chk.violation('range-' + kind, '%s was %s (%s)' % (desc, 'accepted and would be extrapolated' if ok else 'refused although the range is covered', o[:60]),
-                          [x for x in lines[:lines.index(l) + 1] if x.startswith('cal create') or x.startswith('cal new_') or x.startswith('cal make') or x == l][-12:])
+                          [x for x in lines[:lines.index(l) + 1] if x.startswith('cal create') or x.startswith('cal new_') or x.startswith('cal make') or x.startswith('cal add') or x == l][-14:])
         else:
             chk.count('range_' + kind.split('-')[0] + ('_accepted' if acc else '_refused'))
             chk.distinct.add(l[:50])
